@@ -284,6 +284,14 @@ func Tokenize(source string) ([]Token, error) {
 				err = fmt.Errorf("string at row %d, column %d has not been terminated", ogRow, ogColumn)
 				break
 			}
+
+			// A string literal may span several lines, keep row and column in sync.
+			if lines := strings.Split(source[ogI:i], "\n"); len(lines) > 1 {
+				lastLinesIndex := len(lines) - 1
+				row += lastLinesIndex
+				ogColumn = startIndex
+				ogI = i - len(lines[lastLinesIndex])
+			}
 		} else if matches := regexp.MustCompile(`(?s)^\/\*(.*?)\*\/`).FindStringSubmatch(source[i:]); matches != nil {
 			// Multiline comment.
 			token = newToken(matches[1], COMMENT, ogRow, ogColumn)
